@@ -1,3 +1,4 @@
+import LimeModel.Generated
 import LimeModel.Basic
 /-!
 # M4: the pending-command table (channel.go `processCommand` ‖ `trySubmitCommandResult`)
@@ -107,6 +108,7 @@ def runL (fixed : Bool) : S → List Lbl → Option S
 
 
 /-- which variant the code is: see `Props.C05` and the differential mode `c05` -/
-def repaired : Bool := true
+def repaired : Bool :=
+  Generated.pendingLookupDeleteOneRegion && Generated.pendingCleanupConditional
 
 end LimeModel.Pending
